@@ -154,6 +154,18 @@ def real_cases(ctx, marker_dir):
                 if rng.chance(0.3):
                     feats.append('child cd')
                     before += ['$ cd / && pwd']
+                if rng.chance(0.3):
+                    # things that make a naive removal / restoration stumble: dangling and cyclic symbolic links, a link to a
+                    # directory outside the sandbox (must not be followed when removing), odd file names
+                    feats.append('odd sandbox contents')
+                    setup += ['$ ln -s /no-such-target-c04 "$(dirname "$(pwd)")"/act/dangling' if 'cd' not in feats else '$ ln -s /no-such-target-c04 ../../dangling',
+                              '$ ln -s loop-c04 "$(dirname "$(pwd)")"/tmp/loop-c04' if 'cd' not in feats else '$ ln -s loop-c04 ../../../tmp/loop-c04',
+                              '$ ln -s %s "$(dirname "$(pwd)")"/act/outside-link' % marker_dir if 'cd' not in feats else '$ ln -s %s ../../outside-link' % marker_dir]
+                    tmp_files.append('loop-c04')
+                if rng.chance(0.25):
+                    # the current directory is deleted before execution ends
+                    feats.append('cwd deleted')
+                    (cleanup if rng.chance(0.5) else before).extend(['dir -rel-tmp gone-c04', 'cd -rel-tmp gone-c04', '$ rmdir "$(pwd)"'])
                 act = "$ printf '%%s' '%s'; printf '%%s' '%s' >&2; exit %d" % (out.replace('\n', "'\"\\n\"'") if False else out, err, code)
                 # printf with literal newlines inside single quotes is fine for the shell; the act phase source is one line per
                 # instruction line, so encode newlines through printf escapes instead
